@@ -92,6 +92,11 @@ type cursor struct {
 	line         lineBreakClass // the Line Break Class at index i
 	nextLine     lineBreakClass // the Line Break Class at index i+1
 
+	// true if the rune described by `prevLine` (that is, following rule LB9,
+	// ignoring CM and ZWJ) is in [\p{Extended_Pictographic}&\p{Cn}],
+	// used for rule LB30b
+	isPrevLineExtPictCn bool
+
 	// the last rune after spaces, used in rules LB14,LB15,LB16,LB17
 	// to match ... SP* ...
 	beforeSpaces lineBreakClass
